@@ -271,6 +271,10 @@ func planC12(tier string, root *simcore.RNG) *plan {
 			{"dc2", model2Names, []int{100, 200, 400}, []string{"dxf", "svg"}},
 			{"mco", []string{"cube", "csg", "sphere-box"}, []int{64, 100, 128, 200}, []string{"tri", "stl", "3mf"}},
 			{"mcu", []string{"cube", "csg", "sphere-box"}, []int{64, 100, 128}, []string{"tri", "stl", "3mf"}},
+			// space-filling infill: nothing can be pruned, every queue and cache fills up
+			{"mco", []string{"cat:x-gyroid-infill"}, []int{31, 60, 63, 126}, []string{"tri", "stl"}},
+			{"mcu", []string{"cat:x-gyroid-infill"}, []int{63}, []string{"tri"}},
+			{"dc3v2", []string{"cat:x-gyroid-infill"}, []int{24}, []string{"tri"}},
 		}
 		reps := 1
 		if thorough {
